@@ -42,9 +42,12 @@ def main():
                 if l.startswith("VIOLATION") and "replay=" in l:
                     rp = l.split("replay=")[1].split()[0]
                     if os.path.exists(rp):
-                        replay = json.load(open(rp))
-                        keep = os.path.join(d, "replay_%s.json" % p)
-                        shutil.copy(rp, keep)
+                        rj = json.load(open(rp))
+                        # a check may print several VIOLATION lines: keep the (first) one with a concrete failing input
+                        if replay is None or (replay.get("kind") != "counterexample" and rj.get("kind") == "counterexample"):
+                            replay = rj
+                            keep = os.path.join(d, "replay_%s.json" % p)
+                            shutil.copy(rp, keep)
             results[p] = {"exit": r.returncode, "caught": r.returncode == 1 and any(l.startswith("VIOLATION") for l in lines),
                           "lines": lines, "wall_s": round(time.time() - t0, 1),
                           "replay_kind": replay.get("kind") if replay else None,
